@@ -1,8 +1,18 @@
 /-
 Props/C16.lean — clusters with different ids stay isolated.
+
+Per message: `C16_bad_cluster`, `C16_tick_only_self_heartbeat`, `C16_badcluster_reply_inert`,
+`C16_no_data_in_reply`. Per system (`Net`: any number of nodes of any number of clusters, messages
+never removed from the network so that loss, duplication and reordering are all schedules):
+`processMessage_membership` (what one call of `process_message` can do to membership and what it can
+answer) and `C16_clusters_never_mix` (invariant `NetInv`: every member a node holds a copy of belongs
+to its own cluster; every SYN carries its sender's cluster id; every SYN-ACK / ACK travels between two
+nodes of the same cluster and names only members of that cluster).
 -/
 import ChitchatModel.Model.Chitchat
 import ChitchatModel.Lemmas.AL
+import ChitchatModel.Lemmas.Heartbeat
+import ChitchatModel.Props.C07
 namespace Chitchat
 
 /-- **C16 (bad cluster).** A SYN carrying a different cluster id is answered with `BadCluster` only,
@@ -55,5 +65,452 @@ theorem C16_no_data_in_reply (C : Compressor) (n n' : Node) (cid : Bytes) (diges
 example : ([99] : Bytes) ≠ [99, 50] := by decide
 example : ([99] : Bytes) ≠ [67] := by decide
 example : ([] : Bytes) ≠ [99] := by decide
+
+section Network
+open NodeState ClusterState Node
+
+/-! ### Two clusters on one network -/
+
+/-- the node holds a copy of member `i` -/
+def Node.Knows (n : Node) (i : Id) : Prop := (n.cs.nodeState i).isSome = true
+
+def csKnows (cs : ClusterState) (i : Id) : Prop := (cs.nodeState i).isSome = true
+
+theorem csKnows_setNode (cs : ClusterState) (i j : Id) (s : NodeState) (h : csKnows (cs.setNode i s) j) :
+    csKnows cs j ∨ j = i := by
+  by_cases hji : j = i
+  · exact Or.inr hji
+  · left; unfold csKnows at *; rw [nodeState_setNode_ne' cs i j s hji] at h; exact h
+
+theorem csKnows_initIfAbsent (cs : ClusterState) (i j : Id) (h : csKnows (cs.initIfAbsent i) j) :
+    csKnows cs j ∨ j = i := by
+  by_cases hji : j = i
+  · exact Or.inr hji
+  · left; unfold csKnows at *; rw [nodeState_initIfAbsent_ne cs i j hji] at h; exact h
+
+theorem knows_updateSelfHeartbeat (n : Node) (j : Id) (h : n.updateSelfHeartbeat.Knows j) :
+    n.Knows j ∨ j = n.cfg.selfId := by
+  by_cases hj : j = n.cfg.selfId
+  · exact Or.inr hj
+  · left; unfold Node.Knows at *; rw [nodeState_updateSelfHeartbeat_ne n j hj] at h; exact h
+
+theorem knows_reportHeartbeat (n : Node) (i : Id) (hb now : Nat) (j : Id)
+    (h : (n.reportHeartbeat i hb now).Knows j) : n.Knows j ∨ j = i := by
+  by_cases hji : j = i
+  · exact Or.inr hji
+  · left
+    unfold Node.Knows at *
+    unfold Node.reportHeartbeat at h
+    split at h
+    · exact h
+    · split at h
+      · exact h
+      · simp only at h
+        rw [nodeState_setNode_ne' _ _ _ _ hji, reportBase_nodeState_ne n i j hb hji] at h
+        exact h
+
+theorem knows_reportHeartbeatsInDigest (d : Digest) (now : Nat) : ∀ (n : Node) (j : Id),
+    (n.reportHeartbeatsInDigest d now).Knows j → n.Knows j ∨ j ∈ d.map (·.1) := by
+  induction d with
+  | nil => intro n j h; exact Or.inl h
+  | cons p rest ih =>
+    intro n j h
+    have h' : ((n.reportHeartbeat p.1 p.2.heartbeat now).reportHeartbeatsInDigest rest now).Knows j := by
+      simpa [Node.reportHeartbeatsInDigest] using h
+    rcases ih _ j h' with h1 | h1
+    · rcases knows_reportHeartbeat n p.1 p.2.heartbeat now j h1 with h2 | h2
+      · exact Or.inl h2
+      · right; simp [h2]
+    · right; simp only [List.map_cons, List.mem_cons]; exact Or.inr h1
+
+/-- `ClusterState::apply_delta` never creates a member -/
+theorem csKnows_applyDelta (now : Nat) : ∀ (nds : List (Id × NodeDelta)) (cs cs' : ClusterState) (r : Bool)
+    (evs : List (Id × Event)), ClusterState.applyDelta now cs nds = .ok (cs', r, evs) →
+    ∀ j, csKnows cs' j → csKnows cs j := by
+  intro nds
+  induction nds with
+  | nil =>
+    intro cs cs' r evs h j hj
+    simp only [ClusterState.applyDelta] at h
+    injection h with h; injection h with h1 _; subst h1; exact hj
+  | cons q rest ih =>
+    intro cs cs' r evs h j hj
+    obtain ⟨i, nd⟩ := q
+    simp only [ClusterState.applyDelta] at h
+    cases hn : cs.nodeState i with
+    | none => rw [hn] at h; exact ih cs cs' r evs h j hj
+    | some s =>
+      rw [hn] at h
+      simp only at h
+      cases ha : s.applyDelta nd now with
+      | error e => rw [ha] at h; cases h
+      | ok res =>
+        obtain ⟨s', st, es⟩ := res
+        rw [ha] at h
+        simp only at h
+        split at h
+        · cases hr : ClusterState.applyDelta now (cs.setNode i s') rest with
+          | error e => rw [hr] at h; cases h
+          | ok res2 =>
+            obtain ⟨cs2, r2, evs2⟩ := res2
+            rw [hr] at h
+            simp only at h
+            injection h with h; injection h with h1 _; subst h1
+            rcases csKnows_setNode cs i j s' (ih _ _ _ _ hr j hj) with h2 | h2
+            · exact h2
+            · subst h2; unfold csKnows; rw [hn]; rfl
+        · cases h
+
+theorem AL.lookup_isSome_of_mem {κ α : Type} [DecidableEq κ] (k : κ) (v : α) (m : List (κ × α)) (h : (k, v) ∈ m) :
+    (AL.lookup k m).isSome = true := by
+  induction m with
+  | nil => cases h
+  | cons e t ih =>
+    obtain ⟨k', v'⟩ := e
+    simp only [AL.lookup]
+    by_cases hk : k = k'
+    · simp [hk]
+    · simp only [hk, if_false]
+      apply ih
+      rcases List.mem_cons.1 h with h | h
+      · injection h with h1 _; exact absurd h1 hk
+      · exact h
+
+theorem computeDigest_ids (cs : ClusterState) (sched : List Id) (i : Id)
+    (h : i ∈ (cs.computeDigest sched).map (·.1)) : csKnows cs i := by
+  unfold ClusterState.computeDigest at h
+  simp only [List.map_map, List.mem_map, List.mem_filter] at h
+  obtain ⟨p, ⟨hp, _⟩, rfl⟩ := h
+  exact AL.lookup_isSome_of_mem p.1 p.2 cs.nodes hp
+
+theorem computeDelta_ids (C : Compressor) (cs : ClusterState) (digest : Digest) (mtu : Nat)
+    (sched order : List Id) (delta : Delta) (h : computeDelta C cs digest mtu sched order = .ok delta)
+    (i : Id) (hi : i ∈ delta.nodeDeltas.map (·.1)) : csKnows cs i := by
+  obtain ⟨p, hp, rfl⟩ := List.mem_map.1 hi
+  obtain ⟨s, hmem, _⟩ := C07_content C cs digest mtu sched order delta h p hp
+  exact AL.lookup_isSome_of_mem p.1 s cs.nodes hmem
+
+/-- member ids a message mentions -/
+def Msg.ids : Msg → List Id
+  | .syn _ d => d.map (·.1)
+  | .synAck d δ => d.map (·.1) ++ δ.nodeDeltas.map (·.1)
+  | .ack δ => δ.nodeDeltas.map (·.1)
+  | .badCluster => []
+
+def Msg.isSyn : Msg → Bool
+  | .syn _ _ => true
+  | _ => false
+
+/-- What `process_message` can do to membership, and what it can answer:
+* the node afterwards knows only members it knew, itself, or members named in the message — and for a
+  SYN of another cluster only the first two;
+* every member named in the reply is a member the node knows afterwards;
+* a reply is never a SYN; a reply to a SYN of another cluster is `BadCluster`; a reply that carries
+  data (SYN-ACK / ACK) is only produced for a SYN of the node's own cluster or for a SYN-ACK. -/
+theorem processMessage_membership (C : Compressor) (n n' : Node) (msg : Msg) (now : Nat) (order : List Id)
+    (fx : Effects) (h : n.processMessage C msg now order = .ok (n', fx)) :
+    n'.cfg = n.cfg ∧
+    (∀ j, n'.Knows j → n.Knows j ∨ j = n.cfg.selfId ∨
+        ((∀ cid d, msg = .syn cid d → cid = n.cfg.clusterId) ∧ j ∈ msg.ids)) ∧
+    (∀ r, fx.reply = some r → (∀ j ∈ r.ids, n'.Knows j) ∧ r.isSyn = false ∧
+        (r ≠ .badCluster → (∃ d, msg = .syn n.cfg.clusterId d) ∨ (∃ d δ, msg = .synAck d δ))) := by
+  unfold processMessage at h
+  cases msg with
+  | syn cid digest =>
+    simp only at h
+    split at h
+    · injection h with h; injection h with h1 h2; subst h1; subst h2
+      refine ⟨rfl, ?_, ?_⟩
+      · intro j hj
+        rcases knows_updateSelfHeartbeat n j hj with h1 | h1
+        · exact Or.inl h1
+        · exact Or.inr (Or.inl h1)
+      · intro r hr
+        simp only [Option.some.injEq] at hr; subst hr
+        exact ⟨(by intro j hj; cases hj), rfl, fun hne => absurd rfl hne⟩
+    · rename_i hcid
+      have hcid' : cid = n.cfg.clusterId := Classical.not_not.1 hcid
+      split at h
+      · cases h
+      · cases hd : (n.updateSelfHeartbeat.reportHeartbeatsInDigest digest now).cs.computeDelta C digest
+            (maxDatagram - (n.updateSelfHeartbeat.reportHeartbeatsInDigest digest now).cfg.headerReserve -
+              digestLen ((n.updateSelfHeartbeat.reportHeartbeatsInDigest digest now).cs.computeDigest
+                ((n.updateSelfHeartbeat.reportHeartbeatsInDigest digest now).scheduledForDeletion now)))
+            ((n.updateSelfHeartbeat.reportHeartbeatsInDigest digest now).scheduledForDeletion now) order with
+        | error e => rw [hd] at h; cases h
+        | ok delta =>
+          rw [hd] at h
+          injection h with h; injection h with h1 h2; subst h1; subst h2
+          refine ⟨by rw [Node.cfg_reportHeartbeatsInDigest]; rfl, ?_, ?_⟩
+          · intro j hj
+            rcases knows_reportHeartbeatsInDigest digest now _ j hj with h1 | h1
+            · rcases knows_updateSelfHeartbeat n j h1 with h2 | h2
+              · exact Or.inl h2
+              · exact Or.inr (Or.inl h2)
+            · refine Or.inr (Or.inr ⟨?_, h1⟩)
+              intro c d he; injection he with he _; rw [← he]; exact hcid'
+          · intro r hr
+            simp only [Option.some.injEq] at hr; subst hr
+            refine ⟨?_, rfl, fun _ => Or.inl ⟨digest, by rw [hcid']⟩⟩
+            intro j hj
+            simp only [Msg.ids, List.mem_append] at hj
+            rcases hj with hj | hj
+            · exact computeDigest_ids _ _ j hj
+            · exact computeDelta_ids C _ _ _ _ _ delta hd j hj
+  | synAck digest delta =>
+    simp only at h
+    cases hp : (n.updateSelfHeartbeat.reportHeartbeatsInDigest digest now).processDelta delta now with
+    | error e => rw [hp] at h; cases h
+    | ok res =>
+      obtain ⟨n1, cb, evs⟩ := res
+      rw [hp] at h
+      simp only at h
+      cases hd : n1.cs.computeDelta C digest (maxDatagram - n1.cfg.headerReserve) (n1.scheduledForDeletion now) order with
+      | error e => rw [hd] at h; cases h
+      | ok d =>
+        rw [hd] at h
+        injection h with h; injection h with h1 h2; subst h1; subst h2
+        -- processDelta
+        unfold processDelta at hp
+        cases ha : ClusterState.applyDelta now (n.updateSelfHeartbeat.reportHeartbeatsInDigest digest now).cs delta.nodeDeltas with
+        | error e => rw [ha] at hp; cases hp
+        | ok res2 =>
+          obtain ⟨cs2, r2, evs2⟩ := res2
+          rw [ha] at hp
+          injection hp with hp; injection hp with hp1 _; subst hp1
+          refine ⟨by simp only; rw [Node.cfg_reportHeartbeatsInDigest]; rfl, ?_, ?_⟩
+          · intro j hj
+            have hj1 := csKnows_applyDelta now _ _ _ _ _ ha j hj
+            rcases knows_reportHeartbeatsInDigest digest now _ j hj1 with h1 | h1
+            · rcases knows_updateSelfHeartbeat n j h1 with h2 | h2
+              · exact Or.inl h2
+              · exact Or.inr (Or.inl h2)
+            · refine Or.inr (Or.inr ⟨(by intro c d' he; cases he), ?_⟩)
+              simp only [Msg.ids, List.mem_append]; exact Or.inl h1
+          · intro r hr
+            simp only [Option.some.injEq] at hr; subst hr
+            refine ⟨?_, rfl, fun _ => Or.inr ⟨digest, delta, rfl⟩⟩
+            intro j hj
+            exact computeDelta_ids C _ _ _ _ _ d hd j hj
+  | ack delta =>
+    simp only at h
+    cases hp : n.updateSelfHeartbeat.processDelta delta now with
+    | error e => rw [hp] at h; cases h
+    | ok res =>
+      obtain ⟨n1, cb, evs⟩ := res
+      rw [hp] at h
+      injection h with h; injection h with h1 h2; subst h1; subst h2
+      unfold processDelta at hp
+      cases ha : ClusterState.applyDelta now n.updateSelfHeartbeat.cs delta.nodeDeltas with
+      | error e => rw [ha] at hp; cases hp
+      | ok res2 =>
+        obtain ⟨cs2, r2, evs2⟩ := res2
+        rw [ha] at hp
+        injection hp with hp; injection hp with hp1 _; subst hp1
+        refine ⟨rfl, ?_, ?_⟩
+        · intro j hj
+          have hj1 := csKnows_applyDelta now _ _ _ _ _ ha j hj
+          rcases knows_updateSelfHeartbeat n j hj1 with h2 | h2
+          · exact Or.inl h2
+          · exact Or.inr (Or.inl h2)
+        · intro r hr; cases hr
+  | badCluster =>
+    injection h with h; injection h with h1 h2; subst h1; subst h2
+    refine ⟨rfl, ?_, ?_⟩
+    · intro j hj
+      rcases knows_updateSelfHeartbeat n j hj with h1 | h1
+      · exact Or.inl h1
+      · exact Or.inr (Or.inl h1)
+    · intro r hr; cases hr
+
+
+
+/-- Several nodes — of any number of clusters — on one network. Messages are never removed from
+`msgs`: a message that is never delivered is lost, one delivered twice is duplicated, any order is a
+reordering. A reply is addressed to the node the request came from. -/
+structure Net where
+  nodes : List Node
+  msgs : List (Nat × Nat × Msg)
+
+inductive NetStep (C : Compressor) : Net → Net → Prop
+  | initiate (σ : Net) (i j : Nat) (n : Node) (hn : σ.nodes[i]? = some n) (now : Nat) :
+      NetStep C σ { σ with msgs := σ.msgs ++ [(i, j, n.createSyn now)] }
+  | deliver (σ : Net) (i j : Nat) (m : Msg) (hm : (i, j, m) ∈ σ.msgs) (n n' : Node)
+      (hn : σ.nodes[j]? = some n) (now : Nat) (order : List Id) (fx : Effects)
+      (hp : n.processMessage C m now order = .ok (n', fx)) :
+      NetStep C σ { nodes := σ.nodes.set j n',
+                    msgs := σ.msgs ++ (match fx.reply with | some r => [(j, i, r)] | none => []) }
+  | localStep (σ : Net) (j : Nat) (n n' : Node) (hn : σ.nodes[j]? = some n) (hcfg : n'.cfg = n.cfg)
+      (hk : ∀ x, n'.Knows x → n.Knows x ∨ x = n.cfg.selfId) :
+      -- any local activity (writes, liveness evaluation, GC of keys and members, …): adds no member
+      NetStep C σ { σ with nodes := σ.nodes.set j n' }
+
+inductive NetReach (C : Compressor) (σ₀ : Net) : Net → Prop
+  | init : NetReach C σ₀ σ₀
+  | step (σ σ' : Net) : NetReach C σ₀ σ → NetStep C σ σ' → NetReach C σ₀ σ'
+
+/-- `cl` says which cluster a member id belongs to; `cid k`, `sid k` are the configured cluster id and
+own id of node `k`. -/
+structure NetInv (cl : Id → Bytes) (cid : Nat → Bytes) (sid : Nat → Id) (σ : Net) : Prop where
+  cfg : ∀ k n, σ.nodes[k]? = some n → n.cfg.clusterId = cid k ∧ n.cfg.selfId = sid k ∧ cl (sid k) = cid k
+  known : ∀ k n, σ.nodes[k]? = some n → ∀ x, n.Knows x → cl x = cid k
+  msgs : ∀ i j m, (i, j, m) ∈ σ.msgs →
+      (∀ x ∈ m.ids, cl x = cid i) ∧ (∀ c d, m = .syn c d → c = cid i) ∧
+      (m.isSyn = false → m ≠ .badCluster → cid j = cid i)
+
+theorem getElem?_set_cases {α : Type} {l : List α} {j k : Nat} {x y : α} (h : (l.set j x)[k]? = some y) :
+    (k = j ∧ y = x) ∨ (k ≠ j ∧ l[k]? = some y) := by
+  by_cases hkj : j = k
+  · subst hkj
+    left
+    have hlt : j < l.length := by
+      rcases Nat.lt_or_ge j l.length with h' | h'
+      · exact h'
+      · rw [List.getElem?_eq_none (by simp; exact h')] at h; cases h
+    rw [List.getElem?_set_self hlt] at h
+    injection h with h
+    exact ⟨rfl, h.symm⟩
+  · right
+    rw [List.getElem?_set_ne hkj] at h
+    exact ⟨fun e => hkj e.symm, h⟩
+
+theorem netInv_step (C : Compressor) (cl : Id → Bytes) (cid : Nat → Bytes) (sid : Nat → Id) (σ σ' : Net)
+    (hinv : NetInv cl cid sid σ) (hstep : NetStep C σ σ') : NetInv cl cid sid σ' := by
+  cases hstep with
+  | initiate i j n hn now =>
+    refine ⟨hinv.cfg, hinv.known, ?_⟩
+    intro a b m hm
+    rcases List.mem_append.1 hm with hm | hm
+    · exact hinv.msgs a b m hm
+    · simp only [List.mem_singleton, Prod.mk.injEq] at hm
+      obtain ⟨rfl, rfl, rfl⟩ := hm
+      obtain ⟨hc, _, _⟩ := hinv.cfg a n hn
+      refine ⟨?_, ?_, ?_⟩
+      · intro x hx
+        simp only [Node.createSyn, Msg.ids] at hx
+        exact hinv.known a n hn x (computeDigest_ids _ _ x hx)
+      · intro c d he
+        simp only [Node.createSyn] at he
+        injection he with he _; rw [← he]; exact hc
+      · intro hs; simp [Node.createSyn, Msg.isSyn] at hs
+  | deliver i j m hm n n' hn now order fx hp =>
+    obtain ⟨hcfg, hknows, hreply⟩ := processMessage_membership C n n' m now order fx hp
+    obtain ⟨hcj, hsj, hclj⟩ := hinv.cfg j n hn
+    obtain ⟨hmids, hmsyn, hmdata⟩ := hinv.msgs i j m hm
+    -- members named in the message belong to the receiver's cluster whenever it looks at them
+    have hsame : (∀ c d, m = .syn c d → c = n.cfg.clusterId) → ∀ x ∈ m.ids, cid j = cid i := by
+      intro hcond x hx
+      cases m with
+      | syn c d => rw [← hmsyn c d rfl, hcond c d rfl, hcj]
+      | synAck d δ => exact hmdata rfl (by intro e; cases e)
+      | ack δ => exact hmdata rfl (by intro e; cases e)
+      | badCluster => cases hx
+    have hknown' : ∀ x, n'.Knows x → cl x = cid j := by
+      intro x hx
+      rcases hknows x hx with h1 | h1 | ⟨hcond, hx'⟩
+      · exact hinv.known j n hn x h1
+      · rw [h1, hsj]; exact hclj
+      · rw [hsame hcond x hx']; exact hmids x hx'
+    refine ⟨?_, ?_, ?_⟩
+    · intro k nk hk
+      rcases getElem?_set_cases hk with ⟨rfl, rfl⟩ | ⟨_, hk'⟩
+      · rw [hcfg]; exact ⟨hcj, hsj, hclj⟩
+      · exact hinv.cfg k nk hk'
+    · intro k nk hk x hx
+      rcases getElem?_set_cases hk with ⟨rfl, rfl⟩ | ⟨_, hk'⟩
+      · exact hknown' x hx
+      · exact hinv.known k nk hk' x hx
+    · intro a b m' hm'
+      rcases List.mem_append.1 hm' with hm' | hm'
+      · exact hinv.msgs a b m' hm'
+      · cases hr : fx.reply with
+        | none => rw [hr] at hm'; cases hm'
+        | some r =>
+          rw [hr] at hm'
+          simp only [List.mem_singleton, Prod.mk.injEq] at hm'
+          obtain ⟨rfl, rfl, rfl⟩ := hm'
+          obtain ⟨hrids, hrsyn, hrdata⟩ := hreply m' hr
+          refine ⟨fun x hx => hknown' x (hrids x hx), ?_, ?_⟩
+          · intro c d he; rw [he] at hrsyn; simp [Msg.isSyn] at hrsyn
+          · intro _ hnb
+            rcases hrdata hnb with ⟨d, rfl⟩ | ⟨d, δ, rfl⟩
+            · rw [← hmsyn _ d rfl, hcj]
+            · exact (hmdata rfl (by intro e; cases e)).symm
+  | localStep j n n' hn hcfg hk =>
+    obtain ⟨hcj, hsj, hclj⟩ := hinv.cfg j n hn
+    refine ⟨?_, ?_, hinv.msgs⟩
+    · intro k nk hk'
+      rcases getElem?_set_cases hk' with ⟨rfl, rfl⟩ | ⟨_, hk''⟩
+      · rw [hcfg]; exact ⟨hcj, hsj, hclj⟩
+      · exact hinv.cfg k nk hk''
+    · intro k nk hk' x hx
+      rcases getElem?_set_cases hk' with ⟨rfl, rfl⟩ | ⟨_, hk''⟩
+      · rcases hk x hx with h1 | h1
+        · exact hinv.known k n hn x h1
+        · rw [h1, hsj]; exact hclj
+      · exact hinv.known k nk hk'' x hx
+
+/-- **C16 (clusters never mix, under any schedule).** Take any number of nodes of any number of
+clusters on one network, each initially knowing only members of its own cluster, and any schedule of
+SYNs sent to anybody (seeds or addresses shared between clusters), deliveries in any order, any
+number of times or never, and local activity. Then at every moment every member a node holds a copy
+of — hence every heartbeat and key-value it holds — belongs to the node's own cluster: nothing ever
+crosses. (Network assumption: a reply goes to the node the request came from.) -/
+theorem C16_clusters_never_mix (C : Compressor) (cl : Id → Bytes) (cid : Nat → Bytes) (sid : Nat → Id)
+    (σ₀ σ : Net) (h0 : NetInv cl cid sid σ₀) (hreach : NetReach C σ₀ σ) :
+    ∀ k n, σ.nodes[k]? = some n → ∀ x, n.Knows x → cl x = cid k := by
+  have : NetInv cl cid sid σ := by
+    induction hreach with
+    | init => exact h0
+    | step a b _ hs ih => exact netInv_step C cl cid sid a b ih hs
+  exact this.known
+
+
+
+/-! non-vacuity: two one-node clusters `a` and `b` whose nodes gossip with each other -/
+def isoIdA : Id := ⟨[110, 49], 0, .v4 [10, 0, 0, 1] 7000⟩
+def isoIdB : Id := ⟨[110, 50], 0, .v4 [10, 0, 0, 2] 7000⟩
+def isoFd : FDConfig := ⟨8, 1, 1000, 100, 50, 400⟩
+def isoNodeA : Node := { cfg := { selfId := isoIdA, clusterId := [97], grace := 40, fd := isoFd }, cs := ({} : ClusterState).setNode isoIdA { heartbeat := 1 } }
+def isoNodeB : Node := { cfg := { selfId := isoIdB, clusterId := [98], grace := 40, fd := isoFd }, cs := ({} : ClusterState).setNode isoIdB { heartbeat := 1 } }
+def isoCl (i : Id) : Bytes := if i = isoIdA then [97] else [98]
+def isoCid (k : Nat) : Bytes := if k = 0 then [97] else [98]
+def isoSid (k : Nat) : Id := if k = 0 then isoIdA else isoIdB
+
+theorem iso_knowsA (x : Id) (h : isoNodeA.Knows x) : x = isoIdA := by
+  unfold Node.Knows isoNodeA at h
+  simp only [ClusterState.setNode, ClusterState.nodeState, AL.insert, AL.lookup] at h
+  by_cases hx : x = isoIdA
+  · exact hx
+  · simp [hx] at h
+
+theorem iso_knowsB (x : Id) (h : isoNodeB.Knows x) : x = isoIdB := by
+  unfold Node.Knows isoNodeB at h
+  simp only [ClusterState.setNode, ClusterState.nodeState, AL.insert, AL.lookup] at h
+  by_cases hx : x = isoIdB
+  · exact hx
+  · simp [hx] at h
+
+example : NetInv isoCl isoCid isoSid ⟨[isoNodeA, isoNodeB], []⟩ := by
+  refine ⟨?_, ?_, ?_⟩
+  · intro k n hk
+    match k, hk with
+    | 0, hk => simp at hk; subst hk; exact ⟨rfl, rfl, by decide⟩
+    | 1, hk => simp at hk; subst hk; exact ⟨rfl, rfl, by decide⟩
+    | k + 2, hk => simp at hk
+  · intro k n hk x hx
+    match k, hk with
+    | 0, hk => simp at hk; subst hk; rw [iso_knowsA x hx]; decide
+    | 1, hk => simp at hk; subst hk; rw [iso_knowsB x hx]; decide
+    | k + 2, hk => simp at hk
+  · intro i j m hm; cases hm
+
+/-- node B's SYN reaches node A of the other cluster: A answers `BadCluster` — a step of the network -/
+example (C : Compressor) : ∃ σ', NetStep C ⟨[isoNodeA, isoNodeB], [(1, 0, isoNodeB.createSyn 5)]⟩ σ' :=
+  ⟨_, NetStep.deliver _ 1 0 (isoNodeB.createSyn 5) (by simp) isoNodeA _ rfl 5 [] _
+      (C16_bad_cluster C isoNodeA [98] _ 5 [] (by decide))⟩
+
+
+end Network
 
 end Chitchat
